@@ -13,7 +13,9 @@ From RU Require Base.U32_c13 Base.Outcome_c15 Model.Punycode Model.FormUrlencode
 From RU Require Proofs.C04_Inventory Proofs.C04_Cost Proofs.C04_CostPath Proofs.C04_Parse Proofs.C04_PathTotal
   Proofs.C04_ParseTotal Proofs.C04_PathFile Proofs.C04_ParseFile Proofs.C06_List Proofs.C04_Utf8
   Proofs.C04_NoPanic Proofs.C04_Puny Proofs.C13_Known Proofs.C15_Main Proofs.C15_Ser Proofs.C09_Reject
-  Proofs.C06_Main Proofs.C03_WF Proofs.C02_PathL1 Proofs.Idna_Api Proofs.Idna_Hyp Proofs.Idna_Known.
+  Proofs.C06_Main Proofs.C03_WF Proofs.C02_PathL1 Proofs.Idna_Api Proofs.Idna_Hyp Proofs.Idna_Known
+  Proofs.C04_PathCtx Proofs.C04_SetPath Proofs.C04_SetHost Proofs.C04_ParseFile7 Proofs.C06_Host
+  Proofs.C04_Uts46_Inner Proofs.C04_Uts46_Api Proofs.Idna_C10_Inner.
 From RU Require Properties.C03 Properties.C06 Properties.C09 Properties.C10 Properties.C11 Properties.C13
   Properties.C14 Properties.C15 Properties.C16 Properties.C18 Properties.C19 Properties.C20.
 
@@ -149,15 +151,100 @@ Check C04_no_panic_uts46_partial : forall A cfg d deny hy p, bytes d -> Uts46.fa
   /\ Uts46.to_user_interface A cfg d deny hy p = Uts46.UI true d false.
 Print Assumptions C04_no_panic_uts46_partial.
 
-(* Host::parse / Host::parse_opaque (proved for every input that is not a '['-led literal) *)
+(* proved beyond the fastest tier (Proofs/C04_Uts46_Inner.v): the whole label pipeline process_inner - ASCII fast
+   paths, mapping and normalization, Punycode decoding and re-validation, check_label with ContextJ, the bidi
+   rule - reaches none of its panic sites (the decoder's overflow panics: its input is capped at 2000 code units;
+   uts46.rs 1275, 1618, 1590, 1650), for EVERY byte input, every deny list and hyphen mode, both error modes and
+   both configurations, for every adapter whose normalizer functions return code points below 2^32 other than
+   U+200F (AdapterNP).  The hypothesis is needed (second part: with the identity adapter the input U+200F fails
+   debug_assert_ne!(c, RLM) in is_bidi).
+   STILL MISSING w.r.t. C04_no_panic_uts46_statement: the debug assertions and unwraps of the two output walks of
+   process (782, 789, 805-899, 928-992) and the unreachable!() behind the Punycode encoder (445); they need the
+   positional invariant between passthrough_up_to, domain_buffer and already_punycode in BOTH error modes. *)
+Theorem C04_no_panic_uts46_partial2 :
+  (forall A cfg ff hy deny d, C04_Uts46_Inner.AdapterNP A -> bytes d ->
+     forall site, Uts46.process_inner A cfg ff hy deny d <> Uts46.IPanic site)
+  /\ Uts46.process_inner C04_Uts46_Inner.id_adapter true false Uts46.HAllow Uts46.DENY_EMPTY [226; 128; 143] = Uts46.IPanic 1650.
+Proof.
+  split.
+  - intros A cfg ff hy deny d HA Hb site. exact (C04_Uts46_Inner.process_inner_np A cfg HA ff hy deny d Hb site).
+  - exact C04_Uts46_Inner.np_needed.
+Qed.
+Check C04_no_panic_uts46_partial2 :
+  (forall A cfg ff hy deny d, C04_Uts46_Inner.AdapterNP A -> bytes d ->
+     forall site, Uts46.process_inner A cfg ff hy deny d <> Uts46.IPanic site)
+  /\ Uts46.process_inner C04_Uts46_Inner.id_adapter true false Uts46.HAllow Uts46.DENY_EMPTY [226; 128; 143] = Uts46.IPanic 1650.
+Print Assumptions C04_no_panic_uts46_partial2.
+
+(* finding F-C04-13, exactly: when the processing wrote its output, the deprecated Idna::to_ascii(domain, out)
+   panics iff debug assertions are on, verify_dns_length is configured and the UTF-8 text of  out ++ written  is
+   not ASCII (the check is applied to the whole of `out`); witness: out = "e-acute", domain "e-acute x" *)
+Theorem C04_13_exact : forall A cfg c domain out s x,
+  Uts46.process A cfg true Uts46.never_unicode
+    (utf8_encode (Uts46.map_transitional domain (Uts46.transitional_processing c)))
+    (Uts46.config_deny_list c) (Uts46.config_hyphens c) None None false = (Uts46.PWroteToSink, s, x) ->
+  (U32_c13.is_panic (Uts46.idna_to_ascii A cfg c domain out) = true
+   <-> cfg = true /\ Uts46.cfg_verify_dns_length c = true /\ Uts46.is_ascii_l (utf8_encode (out ++ s)) = false).
+Proof. exact C04_Uts46_Api.idna_to_ascii_wrote. Qed.
+Check C04_13_exact : forall A cfg c domain out s x,
+  Uts46.process A cfg true Uts46.never_unicode
+    (utf8_encode (Uts46.map_transitional domain (Uts46.transitional_processing c)))
+    (Uts46.config_deny_list c) (Uts46.config_hyphens c) None None false = (Uts46.PWroteToSink, s, x) ->
+  (U32_c13.is_panic (Uts46.idna_to_ascii A cfg c domain out) = true
+   <-> cfg = true /\ Uts46.cfg_verify_dns_length c = true /\ Uts46.is_ascii_l (utf8_encode (out ++ s)) = false).
+Print Assumptions C04_13_exact.
+
+Theorem C04_13_refuted :
+  Uts46.idna_to_ascii Idna_Known.toy true C04_Uts46_Api.cfg_verify [233; 120] [233] = U32_c13.Panic 468
+  /\ Uts46.idna_to_ascii Idna_Known.toy false C04_Uts46_Api.cfg_verify [233; 120] [233]
+     = U32_c13.Ok [233; 120; 110; 45; 45; 120; 45; 57; 102; 97]
+  /\ Uts46.idna_to_ascii Idna_Known.toy true C04_Uts46_Api.cfg_verify [233; 120] []
+     = U32_c13.Ok [120; 110; 45; 45; 120; 45; 57; 102; 97].
+Proof. exact C04_Uts46_Api.c04_13_witness. Qed.
+Check C04_13_refuted :
+  Uts46.idna_to_ascii Idna_Known.toy true C04_Uts46_Api.cfg_verify [233; 120] [233] = U32_c13.Panic 468
+  /\ Uts46.idna_to_ascii Idna_Known.toy false C04_Uts46_Api.cfg_verify [233; 120] [233]
+     = U32_c13.Ok [233; 120; 110; 45; 45; 120; 45; 57; 102; 97]
+  /\ Uts46.idna_to_ascii Idna_Known.toy true C04_Uts46_Api.cfg_verify [233; 120] []
+     = U32_c13.Ok [120; 110; 45; 45; 120; 45; 57; 102; 97].
+Print Assumptions C04_13_refuted.
+
+(* finding F-C11-2 (the class Known_C11 excluded by C04_no_panic_uts46_statement): to_user_interface("1a.xn--4db")
+   with a never-Unicode policy fails debug_assert!(!had_errors) at uts46.rs:899 *)
+Theorem C04_c11_2_refuted :
+  Idna_Known.Known_C11 Idna_Known.toy false Idna_Known.W_C11_2 Uts46.DENY_EMPTY Uts46.HAllow = true
+  /\ Uts46.to_user_interface Idna_Known.toy true Idna_Known.W_C11_2 Uts46.DENY_EMPTY Uts46.HAllow Uts46.never_unicode
+     = Uts46.UIPanic 899
+  /\ Uts46.to_user_interface Idna_Known.toy false Idna_Known.W_C11_2 Uts46.DENY_EMPTY Uts46.HAllow Uts46.never_unicode
+     = Uts46.UI true Idna_Known.W_C11_2 false.
+Proof. destruct Idna_Known.w_c11_2 as (H1 & _ & H3 & H4). exact (conj H1 (conj H4 H3)). Qed.
+Check C04_c11_2_refuted :
+  Idna_Known.Known_C11 Idna_Known.toy false Idna_Known.W_C11_2 Uts46.DENY_EMPTY Uts46.HAllow = true
+  /\ Uts46.to_user_interface Idna_Known.toy true Idna_Known.W_C11_2 Uts46.DENY_EMPTY Uts46.HAllow Uts46.never_unicode
+     = Uts46.UIPanic 899
+  /\ Uts46.to_user_interface Idna_Known.toy false Idna_Known.W_C11_2 Uts46.DENY_EMPTY Uts46.HAllow Uts46.never_unicode
+     = Uts46.UI true Idna_Known.W_C11_2 false.
+Print Assumptions C04_c11_2_refuted.
+
+(* Host::parse / Host::parse_opaque: every input, '['-led IPv6 literals included (C09_total) *)
 Theorem C04_no_panic_host :
+  (forall idna input, C09_Reject.no_panic (Host.host_parse_x idna input))
+  /\ (forall input, C09_Reject.no_panic (Host.host_parse_opaque_x input)).
+Proof. exact C09.C09_total. Qed.
+Check C04_no_panic_host :
+  (forall idna input, C09_Reject.no_panic (Host.host_parse_x idna input))
+  /\ (forall input, C09_Reject.no_panic (Host.host_parse_opaque_x input)).
+Print Assumptions C04_no_panic_host.
+
+(* the earlier, weaker form (inputs that do not start with '['), kept under its own name *)
+Theorem C04_no_panic_host_partial :
   (forall idna input, Host.starts_with 91 input = false -> C09_Reject.no_panic (Host.host_parse_x idna input))
   /\ (forall input, Host.starts_with 91 input = false -> C09_Reject.no_panic (Host.host_parse_opaque_x input)).
 Proof. exact C09.C09_total_partial. Qed.
-Check C04_no_panic_host :
+Check C04_no_panic_host_partial :
   (forall idna input, Host.starts_with 91 input = false -> C09_Reject.no_panic (Host.host_parse_x idna input))
   /\ (forall input, Host.starts_with 91 input = false -> C09_Reject.no_panic (Host.host_parse_opaque_x input)).
-Print Assumptions C04_no_panic_host.
+Print Assumptions C04_no_panic_host_partial.
 
 (* Url accessors and Position slicing on a record satisfying wf_b, both configurations *)
 Theorem C04_no_panic_accessors : forall dbg u, wf_b u = true ->
@@ -202,6 +289,108 @@ Check C04_no_panic_setters : forall dbg u, C06_Main.wfh u ->
   /\ (forall un, exists r, Setters.set_username dbg u un = Some r)
   /\ (forall s, exists r, Setters.set_scheme dbg u s = Some r).
 Print Assumptions C04_no_panic_setters.
+
+(* the remaining mutators, on a record satisfying wf_b alone, ANY argument (no scalar-value hypothesis), any host
+   functions, both configurations (Proofs/C04_SetPath.v, C04_SetHost.v):
+   - set_path never panics;
+   - a path_segments_mut session (any sequence of clear / pop_if_empty / pop / push / extend, then drop) panics
+     exactly when debug assertions are on and psm_assert_fails u: the URL is not cannot-be-a-base, its scheme is
+     special and the byte at path_start is not '/' (the debug_assert of PathSegmentsMut::new; wf_b allows such a
+     record, the parser never produces one: C04_psm_refuted);
+   - set_host panics exactly in the class of finding F-C04-1: debug assertions on, argument None, known_c04_1 u
+     (has a host, not special-not-file, the path is empty and a '?' or '#' follows);
+   - set_ip_host never panics.
+   Findings F-C04-3 and F-C04-12 are not panics of a mutator on a wf_b record: the mutator returns a record
+   outside wf_b and a LATER accessor panics (C04_3_refuted, C04_12_refuted). *)
+Theorem C04_no_panic_setters2 : forall dbg hp hpo hd u, wf_b u = true ->
+  (forall p, exists u', Setters.set_path dbg u p = Some u')
+  /\ (forall ops, Setters.path_segments_session dbg u ops = None <-> dbg = true /\ C04_SetPath.psm_assert_fails u = true)
+  /\ (forall h, Setters.set_host dbg hp hpo hd u h = None <-> dbg = true /\ h = None /\ C04_SetHost.known_c04_1 u = true)
+  /\ (forall h, exists r, Setters.set_ip_host dbg hd u h = Some r)
+  /\ (forall h op, exists u', Setters.set_host_internal dbg hd u h op = Some u').
+Proof.
+  intros dbg hp hpo hd u W.
+  exact (conj (fun p => C04_SetPath.set_path_total dbg u p W)
+        (conj (fun ops => C04_SetPath.session_panics_iff dbg u ops W)
+        (conj (fun h => C04_SetHost.set_host_panics_iff dbg hp hpo hd u h W)
+        (conj (fun h => C04_SetHost.set_ip_host_total dbg hp hpo hd u h W)
+              (fun h op => C04_SetHost.set_host_internal_total dbg hp hpo hd u h op W))))).
+Qed.
+Check C04_no_panic_setters2 : forall dbg hp hpo hd u, wf_b u = true ->
+  (forall p, exists u', Setters.set_path dbg u p = Some u')
+  /\ (forall ops, Setters.path_segments_session dbg u ops = None <-> dbg = true /\ C04_SetPath.psm_assert_fails u = true)
+  /\ (forall h, Setters.set_host dbg hp hpo hd u h = None <-> dbg = true /\ h = None /\ C04_SetHost.known_c04_1 u = true)
+  /\ (forall h, exists r, Setters.set_ip_host dbg hd u h = Some r)
+  /\ (forall h op, exists u', Setters.set_host_internal dbg hd u h op = Some u').
+Print Assumptions C04_no_panic_setters2.
+
+(* inside known_c04_1 the path is empty and a query or a fragment follows *)
+Theorem C04_known_1_shape : forall u, wf_b u = true -> C04_SetHost.known_c04_1 u = true ->
+  path_start u = C06_WFI.path_end u /\ (query_start u <> None \/ fragment_start u <> None).
+Proof. exact C04_SetHost.known_c04_1_shape. Qed.
+Check C04_known_1_shape : forall u, wf_b u = true -> C04_SetHost.known_c04_1 u = true ->
+  path_start u = C06_WFI.path_end u /\ (query_start u <> None \/ fragment_start u <> None).
+Print Assumptions C04_known_1_shape.
+
+(* finding F-C04-1: "a://h?q".set_host(None) *)
+Theorem C04_1_refuted :
+  wf_b C04_SetHost.w_c04_1 = true /\ C04_SetHost.known_c04_1 C04_SetHost.w_c04_1 = true
+  /\ Setters.set_host true C06_Host.hs_hp C06_Host.hs_hp C06_Host.hs_hd C04_SetHost.w_c04_1 None = None
+  /\ Setters.set_host false C06_Host.hs_hp C06_Host.hs_hp C06_Host.hs_hd C04_SetHost.w_c04_1 None
+     = Some (mkUrl [97; 58; 63; 113] 1 2 2 2 HI_None None 2 (Some 2) None, Setters.SOk).
+Proof. exact C04_SetHost.c04_1_witness. Qed.
+Check C04_1_refuted :
+  wf_b C04_SetHost.w_c04_1 = true /\ C04_SetHost.known_c04_1 C04_SetHost.w_c04_1 = true
+  /\ Setters.set_host true C06_Host.hs_hp C06_Host.hs_hp C06_Host.hs_hd C04_SetHost.w_c04_1 None = None
+  /\ Setters.set_host false C06_Host.hs_hp C06_Host.hs_hp C06_Host.hs_hd C04_SetHost.w_c04_1 None
+     = Some (mkUrl [97; 58; 63; 113] 1 2 2 2 HI_None None 2 (Some 2) None, Setters.SOk).
+Print Assumptions C04_1_refuted.
+
+(* finding F-C04-3: "a://h:80/".set_host(Some "") returns (no panic) the record "a://:80/", which is outside
+   wf_b; password() on it panics in both configurations *)
+Theorem C04_3_refuted :
+  wf_b C06_Host.hs_w1 = true /\ C04_SetHost.known_c04_1 C06_Host.hs_w1 = false
+  /\ exists u', Setters.set_host true C06_Host.hs_hp C06_Host.hs_hp C06_Host.hs_hd C06_Host.hs_w1 (Some []) = Some (u', Setters.SOk)
+     /\ ser u' = [97; 58; 47; 47; 58; 56; 48; 47] /\ wf_b u' = false
+     /\ password true u' = None /\ password false u' = None.
+Proof. exact C04_SetHost.c04_3_witness. Qed.
+Check C04_3_refuted :
+  wf_b C06_Host.hs_w1 = true /\ C04_SetHost.known_c04_1 C06_Host.hs_w1 = false
+  /\ exists u', Setters.set_host true C06_Host.hs_hp C06_Host.hs_hp C06_Host.hs_hd C06_Host.hs_w1 (Some []) = Some (u', Setters.SOk)
+     /\ ser u' = [97; 58; 47; 47; 58; 56; 48; 47] /\ wf_b u' = false
+     /\ password true u' = None /\ password false u' = None.
+Print Assumptions C04_3_refuted.
+
+(* finding F-C04-12: "a:/a/b".set_path("//") returns (no panic) the record "a://", which is outside wf_b;
+   &u[BeforeUsername..AfterUsername] on it panics in both configurations *)
+Theorem C04_12_refuted :
+  wf_b C04_SetPath.w_c04_12 = true
+  /\ exists u', Setters.set_path true C04_SetPath.w_c04_12 [47; 47] = Some u'
+     /\ Setters.set_path false C04_SetPath.w_c04_12 [47; 47] = Some u'
+     /\ ser u' = [97; 58; 47; 47] /\ wf_b u' = false
+     /\ Setters.index_range true u' Setters.BeforeUsername Setters.AfterUsername = None
+     /\ Setters.index_range false u' Setters.BeforeUsername Setters.AfterUsername = None.
+Proof. exact C04_SetPath.c04_12_witness. Qed.
+Check C04_12_refuted :
+  wf_b C04_SetPath.w_c04_12 = true
+  /\ exists u', Setters.set_path true C04_SetPath.w_c04_12 [47; 47] = Some u'
+     /\ Setters.set_path false C04_SetPath.w_c04_12 [47; 47] = Some u'
+     /\ ser u' = [97; 58; 47; 47] /\ wf_b u' = false
+     /\ Setters.index_range true u' Setters.BeforeUsername Setters.AfterUsername = None
+     /\ Setters.index_range false u' Setters.BeforeUsername Setters.AfterUsername = None.
+Print Assumptions C04_12_refuted.
+
+(* the record excluded by psm_assert_fails: "http://h" with an empty path satisfies wf_b *)
+Theorem C04_psm_refuted :
+  wf_b C04_SetPath.psm_w = true /\ C04_SetPath.psm_assert_fails C04_SetPath.psm_w = true
+  /\ Setters.path_segments_session true C04_SetPath.psm_w [] = None
+  /\ Setters.path_segments_session false C04_SetPath.psm_w [] = Some (C04_SetPath.psm_w, Setters.SOk).
+Proof. exact C04_SetPath.psm_witness. Qed.
+Check C04_psm_refuted :
+  wf_b C04_SetPath.psm_w = true /\ C04_SetPath.psm_assert_fails C04_SetPath.psm_w = true
+  /\ Setters.path_segments_session true C04_SetPath.psm_w [] = None
+  /\ Setters.path_segments_session false C04_SetPath.psm_w [] = Some (C04_SetPath.psm_w, Setters.SOk).
+Print Assumptions C04_psm_refuted.
 
 (* ================================================================== 3. the URL parser *)
 (* the class excluded by finding F-C04-7: the file scheme is involved (input scheme, or base scheme
@@ -382,6 +571,40 @@ Check C04_path_state_total_any : forall dbg st ps k, k <= ps + 1 ->
   C04_PathFile.path_res st ps k ser (parse_path_loop dbg CUrlParser st ps l ser ss pend hh).
 Print Assumptions C04_path_state_total_any.
 
+(* the path state in EVERY context (Parser, Setter, PathSegmentSetter): same invariant, same result *)
+Theorem C04_path_state_total_ctx : forall dbg ctx st ps k, k <= ps + 1 ->
+  forall l ser ss pend hh, C04_PathFile.path_inv ps k ser ss ->
+  C04_PathFile.path_res st ps k ser (parse_path_loop dbg ctx st ps l ser ss pend hh).
+Proof. exact C04_PathCtx.loop_ctx. Qed.
+Check C04_path_state_total_ctx : forall dbg ctx st ps k, k <= ps + 1 ->
+  forall l ser ss pend hh, C04_PathFile.path_inv ps k ser ss ->
+  C04_PathFile.path_res st ps k ser (parse_path_loop dbg ctx st ps l ser ss pend hh).
+Print Assumptions C04_path_state_total_ctx.
+
+(* THE PARSER, EXACTLY (Proofs/C04_ParseFile7.v): for every input, with or without base (base_ok), any host
+   functions: parse_url reaches a panic site if and only if debug assertions are on and (base, input) is in
+   known_c04_7x - the exact class of finding F-C04-7: the file scheme is involved, there is a file base, the
+   reference (after an optional "file:") is path-relative (first character not / \ ? #, no drive letter),
+   shorten_path leaves a base text that does not end in '/' (file_rel_unsafe), the drive-letter arm of the path
+   loop does not fire inside the first segment, and the percent-encoded first segment is a double-dot spelling
+   ("..", ".%2e", "%2E.", "%2e%2E", ...).  In a build without debug assertions parse_url never panics.
+   This closes the gap of C04_parse_no_panic_partial3 (known_c04_7x is a sub-class of known_c04_7b). *)
+Theorem C04_parse_panic_iff : forall dbg hp hpo hd ovr base input,
+  (match base with Some b => C04_ParseTotal.base_ok b = true | None => True end) ->
+  (parse_url dbg hp hpo hd ovr base input = PPanic <-> dbg = true /\ C04_ParseFile7.known_c04_7x base input = true).
+Proof. exact C04_ParseFile7.parse_url_panic_iff. Qed.
+Check C04_parse_panic_iff : forall dbg hp hpo hd ovr base input,
+  (match base with Some b => C04_ParseTotal.base_ok b = true | None => True end) ->
+  (parse_url dbg hp hpo hd ovr base input = PPanic <-> dbg = true /\ C04_ParseFile7.known_c04_7x base input = true).
+Print Assumptions C04_parse_panic_iff.
+
+Theorem C04_known_7x_narrower : forall base input,
+  C04_ParseFile7.known_c04_7x base input = true -> C04_ParseFile.known_c04_7b base input = true.
+Proof. exact C04_ParseFile7.known_7x_7b. Qed.
+Check C04_known_7x_narrower : forall base input,
+  C04_ParseFile7.known_c04_7x base input = true -> C04_ParseFile.known_c04_7b base input = true.
+Print Assumptions C04_known_7x_narrower.
+
 (* finding F-C04-7: a file: base whose last segment looks like a drive letter, joined with "../x":
    the debug assertion of the path state fails (PPanic with debug assertions, a URL without) *)
 Definition toy_hp (s : list N) : result host := Ok (HDomain s).
@@ -466,6 +689,26 @@ Qed.
 Check C04_utf8_uts46_partial : forall A cfg ff p d deny hy k1 k2 w, bytes d -> Uts46.fast_tier d d = None ->
   Uts46.process A cfg ff p d deny hy k1 k2 w = (Uts46.PPassthrough, [], []) /\ ascii d.
 Print Assumptions C04_utf8_uts46_partial.
+
+(* beyond the fastest tier, for the fail-fast entry point: EVERY string Uts46::to_ascii returns - the borrowed input
+   (Passthrough, uts46.rs:549: the from_utf8_unchecked site) or the owned output - is ASCII, hence valid UTF-8,
+   for every byte input (invalid UTF-8 included), every deny list the API can build and every adapter with
+   NvNoTrunc (normalize_validate never returns a proper prefix of its argument); from the C10 output theorem.
+   STILL MISSING w.r.t. C04_utf8_uts46_statement: the mark-errors mode (to_unicode / to_user_interface Passthrough). *)
+Theorem C04_utf8_uts46_partial2 : forall A cfg d deny hy dns b r,
+  Idna_C10_Inner.NvNoTrunc A -> bytes d -> Idna_Hyp.valid_deny deny ->
+  Uts46.to_ascii A cfg d deny hy dns = U32_c13.Ok (b, r) ->
+  Forall (fun c => c < 128) r /\ (b = true -> r = d).
+Proof.
+  intros A cfg d deny hy dns b r HN Hb Hv H. split.
+  - exact (C04_Uts46_Api.to_ascii_returns_ascii A cfg d deny hy dns b r HN Hb Hv H).
+  - intros ->. exact (Idna_Api.to_ascii_borrow A cfg d deny hy dns r H).
+Qed.
+Check C04_utf8_uts46_partial2 : forall A cfg d deny hy dns b r,
+  Idna_C10_Inner.NvNoTrunc A -> bytes d -> Idna_Hyp.valid_deny deny ->
+  Uts46.to_ascii A cfg d deny hy dns = U32_c13.Ok (b, r) ->
+  Forall (fun c => c < 128) r /\ (b = true -> r = d).
+Print Assumptions C04_utf8_uts46_partial2.
 
 (* ================================================================== 5. cost *)
 (* each twin computes the original function, and its step count is linear *)
@@ -665,3 +908,37 @@ Proof.
   right. unfold C04_PathFile.bad_seg. split; [lia|]. split; [lia|]. split; [vm_compute; discriminate|].
   exists 58. repeat split; try discriminate; reflexivity.
 Qed.
+
+(* C04_parse_panic_iff: the witness of F-C04-7 and its "%2E." spelling (also behind "file:") are inside known_c04_7x;
+   a harmless first segment against the same base, and "../x" against file:///C: (the drive-letter arm fires),
+   are outside known_c04_7x although inside known_c04_7b *)
+Example C04_panic_iff_premises_hold :
+  let b7 := mkUrl w_c04_7_base 4 7 7 7 HI_None None 7 None None in
+  let bC := mkUrl [102;105;108;101;58;47;47;47;67;58] 4 7 7 7 HI_None None 7 None None in
+  C04_ParseTotal.base_ok b7 = true /\ C04_ParseTotal.base_ok bC = true
+  /\ C04_ParseFile7.known_c04_7x (Some b7) w_c04_7_ref = true
+  /\ C04_ParseFile7.known_c04_7x (Some b7) [37;50;69;46] = true
+  /\ C04_ParseFile7.known_c04_7x (Some b7) [102;105;108;101;58;46;46] = true
+  /\ C04_ParseFile7.known_c04_7x (Some b7) [120] = false /\ C04_ParseFile.known_c04_7b (Some b7) [120] = true
+  /\ C04_ParseFile7.known_c04_7x (Some bC) w_c04_7_ref = false /\ C04_ParseFile.known_c04_7b (Some bC) w_c04_7_ref = true
+  /\ parse_url true toy_hp toy_hp toy_hd None (Some bC) w_c04_7_ref
+     = POk (mkUrl [102;105;108;101;58;47;47;47;67;58;47;120] 4 7 7 7 HI_None None 7 None None).
+Proof. cbv zeta. vm_compute. repeat split; reflexivity. Qed.
+
+(* C04_no_panic_setters2: a parsed URL with query, an editing session on it, and set_host(None) outside known_c04_1 *)
+Example C04_setters2_premises_hold :
+  let u := mkUrl [104;116;116;112;58;47;47;104;47;97;47;98;63;113] 4 7 7 8 HI_Domain None 8 (Some 12) None in
+  wf_b u = true /\ C04_SetPath.psm_assert_fails u = false /\ C04_SetHost.known_c04_1 u = false
+  /\ Setters.path_segments_session true u [Setters.PPop; Setters.PPush [46; 46]; Setters.PPush [99; 47; 63]; Setters.PExtend [[100]; []]]
+     = Some (mkUrl [104;116;116;112;58;47;47;104;47;97;47;99;37;50;70;37;51;70;47;100;47;63;113] 4 7 7 8 HI_Domain None 8 (Some 21) None,
+             Setters.SOk)
+  /\ Setters.set_path true u [46;46;47;120;63] = Some (mkUrl [104;116;116;112;58;47;47;104;47;120;37;51;70;63;113] 4 7 7 8 HI_Domain None 8 (Some 13) None).
+Proof. cbv zeta. vm_compute. repeat split; reflexivity. Qed.
+
+(* C04_no_panic_uts46_partial2 / C04_utf8_uts46_partial2: the toy adapter of Idna_Known (identity normalizers on the
+   witness inputs) meets NvNoTrunc; a mixed input goes through the whole pipeline without panic *)
+Example C04_uts46_premises_hold :
+  Idna_C10_Inner.NvNoTrunc Idna_Known.toy
+  /\ Uts46.to_ascii Idna_Known.toy true [98; 195; 188; 99; 104; 101; 114; 46; 100; 101] Uts46.DENY_EMPTY Uts46.HAllow Uts46.DIgnore
+     = U32_c13.Ok (false, [120; 110; 45; 45; 98; 99; 104; 101; 114; 45; 107; 118; 97; 46; 100; 101]).
+Proof. split; [exact Idna_C10_Walk.toy_notrunc | vm_compute; reflexivity]. Qed.
